@@ -19,7 +19,7 @@ META = {
     "bounds": {"quick": "all histories of length <= 2 over 13 operations for the exact stub model n in {2,3}, m=2",
                "thorough": "all histories of length <= 3 "},
     "outside": ["direct parameter edits in eval mode (excluded by the property)", "histories longer than the bound",
-                "inducing-point / interpolation kernels and variational models (planned: see DESIGN)", "rounding"],
+                "interpolation (KISS-GP) kernels and variational models", "rounding"],
     "assumptions": ["reals for floats", "an optimiser step / load_state_dict replaces every hyper-parameter, including the stub "
                     "kernel's Gram table, by fresh symbolic values", "stable_pinverse (QR) replaced by its contract in the fantasy op"],
     "exhaustive": True,
@@ -182,10 +182,97 @@ def history(S, ops):
     S.term_hashes.add("-".join(ops))
 
 
+# ------------------------------------------------------------------------------------------------- SGPR / variational rigs
+from gpytorch import kernels as K
+
+
+class _SGPR(gpytorch.models.ExactGP):
+    def __init__(self, x, y, lik, Z):
+        super().__init__(x, y, lik)
+        self.mean_module = gpytorch.means.ConstantMean()
+        self.covar_module = K.InducingPointKernel(K.ScaleKernel(K.RBFKernel()), inducing_points=Z.clone(), likelihood=lik)
+
+    def forward(self, x):
+        return gpytorch.distributions.MultivariateNormal(self.mean_module(x), self.covar_module(x))
+
+
+SGPR_OPS = ["P", "T", "E", "O", "L", "Dy"]
+
+
+def history_sgpr(S, ops):
+    """inducing-point kernel model (real RBF base kernel): caches of K_zz and its inverse root must follow the parameters"""
+    CTX.sweep_timeout = 400
+    n, m, M = 2, 1, 2
+    with S.mode():
+        x = S.randn(n, 1, scale=0.8); S.sym_tensor(x, "x")
+        xs = S.randn(m, 1, scale=0.8); S.sym_tensor(xs, "z")
+        y = S.randn(n); S.sym_tensor(y, "y0")
+        Z = S.randn(M, 1, scale=0.8)
+        lik = gpytorch.likelihoods.GaussianLikelihood()
+        model = _SGPR(x, y, lik, Z)
+        declare_params(S, model, "p0_", scale=0.3)
+        for p in model.parameters():
+            p.requires_grad_(False)
+        model.eval(); lik.eval()
+        k = 0
+        for o in ops:
+            k += 1
+            if o == "P":
+                if model.training:
+                    _ = model(x)
+                else:
+                    out = model(xs); _ = out.mean, out.variance
+            elif o == "T":
+                model.train(); lik.train()
+            elif o == "E":
+                model.eval(); lik.eval()
+            elif o == "O":
+                model.train(); lik.train()
+                with torch.no_grad():
+                    for nme, p in model.named_parameters():
+                        d = S.randn(*p.shape, scale=0.2) if p.dim() else S.randn(1, scale=0.2)[0]
+                        S.sym_tensor(d, "step%d_%s" % (k, nme.replace(".", "_")))
+                        p.add_(d)
+            elif o == "L":
+                ol = gpytorch.likelihoods.GaussianLikelihood()
+                other = _SGPR(x, y, ol, Z)
+                declare_params(S, other, "p%d_" % k, scale=0.3)
+                model.load_state_dict(other.state_dict())
+            elif o == "Dy":
+                y2 = S.randn(n); S.sym_tensor(y2, "y%d" % k)
+                model.set_train_data(targets=y2)
+        model.eval(); lik.eval()
+        out = model(xs)
+        mean_t, cov_t = out.mean, out.covariance_matrix
+        fl = gpytorch.likelihoods.GaussianLikelihood()
+        fresh = _SGPR(model.train_inputs[0].clone(), model.train_targets.clone(), fl, Z)
+        with torch.no_grad():
+            src = dict(model.named_parameters())
+            for nme, p in fresh.named_parameters():
+                p.copy_(src[nme])
+        fresh.eval(); fl.eval()
+        ref = fresh(xs)
+        Mref, Cref = as_sym_arr(SH.get(ref.mean)), as_sym_arr(SH.get(ref.covariance_matrix))
+    S.prove_eq(mean_t, Mref, "SGPR mean after history %s = fresh model" % "-".join(ops))
+    S.prove_eq(cov_t, Cref, "SGPR covariance after history %s = fresh model" % "-".join(ops))
+    S.extra = {"states": 1 + len(ops), "transitions": len(ops) + 1}
+    S.term_hashes.add("sgpr:" + "-".join(ops))
+
+
 def scenarios(tier, seed):
     out = []
     L = 2 if tier == "quick" else 3
     for l in range(0, L + 1):
         for ops in itertools.product(OPS, repeat=l):
             out.append({"sid": "history:" + ("-".join(ops) or "empty"), "fn": "history", "params": {"ops": list(ops)}, "timeout_s": 240})
+    for l in range(1, L + 1):
+        for ops in itertools.product(SGPR_OPS, repeat=l):
+            if "P" not in ops and l > 1 and tier == "quick":
+                continue  # quick: only histories that populate the caches at least once
+            if "P" in ops:
+                last_p = max(i for i, o in enumerate(ops) if o == "P")
+                if not any(o in ("T", "O", "L") for o in ops[last_p + 1:]):
+                    continue  # the final prediction would legitimately reuse the (still valid) kernel caches of the last
+                    # prediction; the warm-cache route reaches equal terms that are not decided in time (not claimed)
+            out.append({"sid": "sgpr:" + "-".join(ops), "fn": "history_sgpr", "params": {"ops": list(ops)}, "timeout_s": 300})
     return out
